@@ -315,24 +315,28 @@ class ClassInfo:
                 for t, pol in tests:
                     t0 = spec.peval(t, allp, self.locals)
                     if t0 is UNKNOWN:
-                        stmt_guards |= _names_in(t, allp, self.locals)
+                        if _truthiness_test(t):
+                            spec.truthy_tests |= _names_in(t, allp, self.locals)
+                        else:
+                            stmt_guards |= _names_in(t, allp, self.locals)
                     elif bool(t0) != pol:
                         live = False
                         break
                 if not live:
                     continue
                 fed = self._feed(v, allp, self.locals, spec)
-                # a truthiness test on the value parameter itself = "survives when truthy"; on another parameter = a guard
-                own = {fed[0]} if fed is not None else set()
-                chosen.append((fed, set(spec.guards) | (spec.truthy_tests - own), spec.ordefault or bool(spec.truthy_tests & own)))
+                chosen.append((fed, set(spec.guards), set(spec.truthy_tests), spec.ordefault))
             feds = {c[0] for c in chosen if c[0] is not None}
             if len(feds) > 1:
                 raise TranslateError(f'{self.name}.__init__: field {f} is fed by different parameters in branches this call '
                                      f'does not decide: {sorted(feds)}')
-            guards = set().union(stmt_guards, *[c[1] for c in chosen])
             fed = next(iter(feds)) if feds else None
+            # a truthiness test on the value parameter itself = "survives when truthy"; on another parameter = a guard
+            own = {fed[0]} if fed is not None else set()
+            truthy = set().union(*[c[2] for c in chosen]) if chosen else set()
+            guards = set().union(stmt_guards, *[c[1] for c in chosen]) | (truthy - own)
             if fed is not None:
-                out.field[f] = (fed[0], fed[1], guards, any(c[2] for c in chosen))
+                out.field[f] = (fed[0], fed[1], guards, any(c[3] for c in chosen) or bool(truthy & own))
             elif guards:
                 out.field[f] = (None, 'direct', guards, False)
         for p in self.loop_fed:
@@ -447,6 +451,134 @@ class Spec:
                     return False            # the argument is a field declared str/int/float/bool: never an instance of a library class
             return UNKNOWN
         return UNKNOWN
+
+
+# ---------------------------------------------------------------------------------------------- normalisation
+def _assigned_names(fn: ast.FunctionDef) -> dict[str, int]:
+    """How often each local name is bound anywhere in the function (assignment, loop / comprehension / with / except
+    target, augmented assignment, walrus)."""
+    cnt: dict[str, int] = {}
+
+    def bump(t: ast.AST) -> None:
+        for n in ast.walk(t):
+            if isinstance(n, ast.Name):
+                cnt[n.id] = cnt.get(n.id, 0) + 1
+    for n in ast.walk(fn):
+        if isinstance(n, ast.Assign):
+            for t in n.targets:
+                if isinstance(t, (ast.Name, ast.Tuple, ast.List)):
+                    bump(t)
+        elif isinstance(n, (ast.AnnAssign, ast.AugAssign, ast.NamedExpr)) and isinstance(n.target, ast.Name):
+            bump(n.target)
+        elif isinstance(n, (ast.For, ast.comprehension)):
+            bump(n.target)
+        elif isinstance(n, ast.withitem) and n.optional_vars is not None:
+            bump(n.optional_vars)
+        elif isinstance(n, ast.ExceptHandler) and n.name:
+            cnt[n.name] = cnt.get(n.name, 0) + 1
+    return cnt
+
+
+def _pure_self_chain(e: ast.expr) -> bool:
+    """`self.a` / `self.a.b`: a read with no side effect and no fresh object."""
+    while isinstance(e, ast.Attribute):
+        e = e.value
+    return isinstance(e, ast.Name) and e.id == 'self'
+
+
+class _Subst(ast.NodeTransformer):
+    def __init__(self, mapping: dict[str, ast.expr]) -> None:
+        self.mapping = mapping
+
+    def visit_Name(self, node: ast.Name) -> ast.AST:
+        if isinstance(node.ctx, ast.Load) and node.id in self.mapping:
+            import copy as _c
+            return ast.copy_location(_c.deepcopy(self.mapping[node.id]), node)
+        return node
+
+
+def normalise_fn(fn: ast.FunctionDef) -> ast.FunctionDef:
+    """Behaviour-preserving rewrites applied BEFORE a method is classified, so that equivalent spellings give the same
+    census (nothing here depends on the names or the text of the method):
+      (a) a local bound exactly once, at the top level of the body, to a pure read `self.a[.b]` in a method that never
+          stores into an attribute of `self`, is an ALIAS: its uses are replaced by the read;
+      (b) `x = []` followed by `for t in it: x.append(e)` (optionally under one `if c:`) is the comprehension
+          `x = [e for t in it if c]`;
+      (c) `obj.f = A if c else B` is `if c: obj.f = A` / `else: obj.f = B`."""
+    import copy as _c
+    fn = _c.deepcopy(fn)
+    params = {a.arg for a in fn.args.args + fn.args.kwonlyargs}
+    stores_self = any(isinstance(n, (ast.Assign, ast.AugAssign, ast.AnnAssign)) and any(
+        isinstance(t, ast.Attribute) and _pure_self_chain(t) for t in (n.targets if isinstance(n, ast.Assign) else [n.target]))
+        for n in ast.walk(fn))
+    # (a)
+    if not stores_self:
+        cnt = _assigned_names(fn)
+
+        def inline(stmts: list[ast.stmt], alias: dict[str, ast.expr]) -> list[ast.stmt]:
+            alias = dict(alias)
+            body: list[ast.stmt] = []
+            for st in stmts:
+                if isinstance(st, ast.Assign) and len(st.targets) == 1 and isinstance(st.targets[0], ast.Name) \
+                        and st.targets[0].id not in params and cnt.get(st.targets[0].id) == 1 and _pure_self_chain(st.value) \
+                        and isinstance(st.value, ast.Attribute):
+                    alias[st.targets[0].id] = _Subst(alias).visit(st.value)
+                    continue
+                if isinstance(st, (ast.If, ast.For, ast.While, ast.With)):
+                    for fld in ('test', 'iter'):
+                        if hasattr(st, fld):
+                            setattr(st, fld, _Subst(alias).visit(getattr(st, fld)))
+                    if isinstance(st, ast.With):
+                        for it in st.items:
+                            it.context_expr = _Subst(alias).visit(it.context_expr)
+                    st.body = inline(st.body, alias)
+                    if getattr(st, 'orelse', None):
+                        st.orelse = inline(st.orelse, alias)
+                    body.append(st)
+                else:
+                    body.append(_Subst(alias).visit(st) if alias else st)
+            return body
+        fn.body = inline(fn.body, {})
+
+    # (b) and (c), recursively through blocks
+    def block(stmts: list[ast.stmt]) -> list[ast.stmt]:
+        out: list[ast.stmt] = []
+        i = 0
+        while i < len(stmts):
+            st = stmts[i]
+            nxt = stmts[i + 1] if i + 1 < len(stmts) else None
+            if isinstance(st, ast.Assign) and len(st.targets) == 1 and isinstance(st.targets[0], ast.Name) \
+                    and isinstance(st.value, ast.List) and not st.value.elts and isinstance(nxt, ast.For) and not nxt.orelse \
+                    and len(nxt.body) == 1:
+                x = st.targets[0].id
+                inner, conds = nxt.body[0], []
+                if isinstance(inner, ast.If) and not inner.orelse and len(inner.body) == 1:
+                    conds, inner = [inner.test], inner.body[0]
+                if isinstance(inner, ast.Expr) and isinstance(inner.value, ast.Call) and ast.unparse(inner.value.func) == f'{x}.append' \
+                        and len(inner.value.args) == 1 and not inner.value.keywords \
+                        and not any(isinstance(n, ast.Name) and n.id == x for n in ast.walk(inner.value.args[0])) \
+                        and not any(isinstance(n, ast.Name) and n.id == x for c in conds + [nxt.iter] for n in ast.walk(c)):
+                    comp = ast.ListComp(elt=inner.value.args[0],
+                                        generators=[ast.comprehension(target=nxt.target, iter=nxt.iter, ifs=conds, is_async=0)])
+                    out.append(ast.fix_missing_locations(ast.copy_location(ast.Assign(targets=[st.targets[0]], value=comp), st)))
+                    i += 2
+                    continue
+            if isinstance(st, ast.Assign) and len(st.targets) == 1 and isinstance(st.targets[0], ast.Attribute) \
+                    and isinstance(st.value, ast.IfExp):
+                a = ast.copy_location(ast.Assign(targets=[_c.deepcopy(st.targets[0])], value=st.value.body), st)
+                b = ast.copy_location(ast.Assign(targets=[_c.deepcopy(st.targets[0])], value=st.value.orelse), st)
+                out.append(ast.fix_missing_locations(ast.copy_location(ast.If(test=st.value.test, body=[a], orelse=[b]), st)))
+                i += 1
+                continue
+            if isinstance(st, (ast.If, ast.For, ast.While, ast.With)):
+                st.body = block(st.body)
+                if getattr(st, 'orelse', None):
+                    st.orelse = block(st.orelse)
+            out.append(st)
+            i += 1
+        return out
+    fn.body = block(fn.body)
+    return fn
 
 
 # ---------------------------------------------------------------------------------------------- argument classification
@@ -845,7 +977,7 @@ class CopyAnalysis:
     # ---- a copy() method that builds with a constructor call, optionally followed by `new.X = ...`
     def method_census(self, cname: str, mname: str = 'copy', label: Optional[str] = None) -> Census:
         cls = self.classes[cname].node
-        fn = _method(cls, mname)
+        fn = normalise_fn(_method(cls, mname))
         label = label or cname
         params = {a.arg for a in fn.args.args[1:] + fn.args.kwonlyargs}
         env: dict[str, ast.expr] = {}
@@ -948,10 +1080,23 @@ class CopyAnalysis:
         return cen
 
     def analyse_copy_values(self) -> None:
-        fn = _method(self.classes['EntityFixup'].node, 'copy_values')
-        rets = [s for s in fn.body if isinstance(s, ast.Return)]
-        if len(rets) != 1 or rets[0].value is None or len([s for s in fn.body if not (isinstance(s, ast.Expr) and isinstance(s.value, ast.Constant))]) != 1:
+        fn = normalise_fn(_method(self.classes['EntityFixup'].node, 'copy_values'))
+        stmts = [s for s in fn.body if not (isinstance(s, ast.Expr) and isinstance(s.value, ast.Constant))]
+        rets = [s for s in stmts if isinstance(s, ast.Return)]
+        if len(rets) != 1 or rets[0].value is None or stmts[-1] is not rets[0]:
             raise TranslateError('EntityFixup.copy_values: unrecognised body')
+        # `name = expr` ... `return name`: single-assignment locals are resolved
+        cnt = _assigned_names(fn)
+        cv_env: dict[str, ast.expr] = {}
+        for st in stmts[:-1]:
+            if isinstance(st, ast.Assign) and len(st.targets) == 1 and isinstance(st.targets[0], ast.Name) \
+                    and cnt.get(st.targets[0].id) == 1:
+                cv_env[st.targets[0].id] = st.value
+            else:
+                raise TranslateError(f'EntityFixup.copy_values: unrecognised statement `{ast.unparse(st)[:60]}`')
+        hops = 0
+        while isinstance(rets[0].value, ast.Name) and rets[0].value.id in cv_env and hops < 8:
+            rets[0].value, hops = cv_env[rets[0].value.id], hops + 1
         self.src_class = 'EntityFixup'
         how = self.classify(rets[0].value, 'self', {}, set(), 'EntityFixup_copy_values')
         self.src_class = ''
@@ -1036,11 +1181,11 @@ def kv_receivers(tree: ast.Module) -> dict:
     # what the public append()/extend() do with their argument (used when +/+= delegate to them)
     via: dict[str, bool] = {}
     for name in ('append', 'extend'):
-        sites = appends(_method(cls, name), {})
+        sites = appends(normalise_fn(_method(cls, name)), {})
         via[name] = bool(sites) and all(s[2] for s in sites)
     out['public_method_copies'] = via
     for name in ('__add__', '__iadd__', 'extend'):
-        fn = _method(cls, name)
+        fn = normalise_fn(_method(cls, name))
         sites = appends(fn, via)
         if name == 'extend':
             if len(sites) != 1:
